@@ -67,12 +67,48 @@ def tables_snapshot(a):
             sorted(a.NUMERIC_SEQUENCE_NAMES), sorted(a.SHORTHAND_PACK_NAMES), {k: (v.func.__name__, sorted(v.keywords.items(), key=str)) for k, v in a.INSTRUCTIONS.items() if hasattr(v, 'func')})
 
 
+def rename_labels(items, mp):
+    """Deep copy of IR items with label names replaced according to mp (definitions and every reference)."""
+    items = copy.deepcopy(items)
+
+    def fix(v):
+        if isinstance(v, (ir.LRef, ir.Pos)) or (isinstance(v, ir.Off) and not isinstance(v, ir.OffC)):
+            v.name = mp.get(v.name, v.name)
+        for attr in ('a', 'b', 'v', 'base'):
+            x = getattr(v, attr, None)
+            if isinstance(x, ir.V):
+                fix(x)
+    for it in items:
+        if it.kind == 'label':
+            it.name = mp.get(it.name, it.name)
+        elif it.kind == 'insn':
+            for v in it.ops.values():
+                if isinstance(v, ir.V):
+                    fix(v)
+        elif it.kind == 'pseudo':
+            it.ops = [mp.get(v, v) if isinstance(v, str) else v for v in it.ops]
+            for v in it.ops:
+                if isinstance(v, ir.V):
+                    fix(v)
+        elif it.kind in ('short', 'pack'):
+            fix(it.value)
+    return items
+
+
 @st.composite
 def pool(draw):
     n = draw(st.integers(3, 6))
     progs = []
+    prev = None
     for i in range(n):
         p = draw(S.programs(PROFILE))
+        labs = [it.name for it in (prev.items if prev is not None else []) if it.kind == 'label']
+        if prev is not None and len(labs) >= 2 and draw(st.integers(0, 2)) == 0:
+            # a SIBLING of the previous program: the same items with the label names permuted - the same names then sit at other
+            # addresses, in another order (a dictionary filled by one of the two has the "wrong" insertion order for the other)
+            perm = draw(st.permutations(labs))
+            p = S.Program(rename_labels(prev.items, dict(zip(labs, perm))), prev.tags, prev.expected_ok)
+        prev = p
         # registers as xN / ABI alias / plain number, integers in three bases: the same operand TEXT then shows up in different
         # roles in different programs (state keyed by a spelling would leak between calls)
         st_ = ir.Style(draw(st.integers(1, 2 ** 30)), kinds={'reg', 'intbase'}) if draw(st.integers(0, 3)) else ir.Style(0)
@@ -256,9 +292,11 @@ class History(RuleBasedStateMachine):
         self._call(i, compress, 'reuse', incdirs, reuse_from=(lin, cin))
 
     @precondition(lambda self: len(self.reusable) > 0)
-    @rule(k=st.integers(0, 50), i=st.integers(0, 5), compress=st.booleans())
-    def assemble_with_dicts_left_over_from_another_program(self, k, i, compress):
+    @rule(k=st.integers(0, 50), i=st.integers(0, 5), compress=st.booleans(), neighbour=st.integers(-1, 1))
+    def assemble_with_dicts_left_over_from_another_program(self, k, i, compress, neighbour):
         j, incdirs, lin, cin = self.reusable[k % len(self.reusable)]
+        if neighbour:
+            i = j + neighbour      # the next / previous program of the pool is often a sibling: same label names, other order
         if i % len(self.pool) == j:
             return
         self.reusable = [x for x in self.reusable if x[2] is not lin]   # they now hold a mixture: no longer 'same program' dicts
@@ -411,6 +449,52 @@ def cli_hashseed_job(seed):
     return res
 
 
+def sibling_job(seed, n):
+    """Build loop over two variants of one program: B is A with its label names permuted (same names, other addresses, other
+    order).  B assembled with the labels dictionary that A's build filled must equal B assembled with an empty one: B defines
+    every name in it itself."""
+    from hypothesis import given
+    res = env.Result()
+    progs = []
+
+    @hypothesis.seed(seed)
+    @env.hyp_settings(n, shrink=False)
+    @given(S.programs(S.profile(n_items=(6, 30), far=False, big_gaps=False, n_labels=(2, 6), p_compressible=0.7)), st.integers(0, 2 ** 30))
+    def collect(p, k):
+        progs.append((p, k))
+    collect()
+    a = fresh_module()
+    import random
+    for p, k in progs:
+        labs = [it.name for it in p.items if it.kind == 'label']
+        if len(labs) < 2:
+            continue
+        rnd = random.Random(k)
+        perm = labs[:]
+        rnd.shuffle(perm)
+        if perm == labs:
+            perm = labs[1:] + labs[:1]
+        A = p.text()
+        B = ir.render(rename_labels(p.items, dict(zip(labs, perm))))[0]
+        for comp in (True, False):
+            res.evaluations += 1
+            ref_l = {}
+            ref = progcheck.assemble(a, B, comp, labels=ref_l, constants={})
+            la = {}
+            first = progcheck.assemble(a, A, comp, labels=la, constants={})
+            if ref[0] != 'ok' or first[0] != 'ok':
+                res.count('sibling_refused')
+                continue
+            got = progcheck.assemble(a, B, comp, labels=la, constants={})
+            if got[0] != 'ok' or got[1] != ref[1] or {x: la.get(x) for x in ref_l} != ref_l:
+                res.fail('history:sibling', 'program B (program A with its label names permuted) assembled with the labels dictionary left by A gives %s, with an empty '
+                         'dictionary %s (compress=%s)\n--- A\n%s--- B\n%s' % (got[1].hex()[:80] if got[0] == 'ok' else got, ref[1].hex()[:80], comp, A[:500], B[:500]),
+                         {'kind': 'sibling', 'A': A, 'B': B, 'compress': comp})
+            else:
+                res.nt(env.chash((A, B, comp)))
+    return res
+
+
 def _dispatch(fn, *a):
     return fn(*a)
 
@@ -420,13 +504,14 @@ def run(tier):
     per = max(1, N[tier] // env.NPROC)
     jobs = [(shard, per, s, tier == 'thorough') for s in range(env.NPROC)]   # shrinking histories re-runs many subprocesses: thorough only
     jobs += [(cli_hashseed_job, env.derive(chk.seed, PROP, 'cli', i) % (1 << 30)) for i in range({'quick': 4, 'thorough': 64}[tier])]
+    jobs += [(sibling_job, env.derive(chk.seed, PROP, 'sib', i) % (1 << 30), {'quick': 40, 'thorough': 1500}[tier]) for i in range(8)]
     chk.merge(env.run_shards(_dispatch, jobs))
     chk.rule = ('Hypothesis RuleBasedStateMachine: a pool of 3-6 generated programs over a shared small name space (some with a planted fault, some '
                 'using a name only another program defines); rules: assemble(program, compress, no dicts / fresh dicts / pre-populated dicts), '
                 're-assemble an earlier call, assemble the same program again with the very dictionaries an earlier call filled, scribble into dictionaries handed back earlier; <= 30 steps. Every in-history result (bytes, labels, '
                 'constants or exception type+message+line) must equal the result of ONE FRESH INTERPRETER per (program, options) started with a '
                 'different PYTHONHASHSEED; dictionaries returned earlier are never mutated by later calls; module tables unchanged after every '
-                'step. Plus command-line runs of generated files under 4 hash seeds. non-trivial = history with >= 2 distinct programs, a '
+                'step. Plus command-line runs of generated files under 4 hash seeds, and sibling builds (program B = program A with its label names permuted, assembled with the labels dictionary A left behind, must equal B with an empty one). non-trivial = history with >= 2 distinct programs, a '
                 'failure before a success and a repeated call; distinct by (pool, calls)')
     return chk.finish()
 
@@ -437,6 +522,17 @@ def replay(path):
         body = json.load(f)
     c = body['case']
     _stats = env.Result()
+    if c['kind'] == 'sibling':
+        a = fresh_module()
+        ref_l, la = {}, {}
+        ref = progcheck.assemble(a, c['B'], c['compress'], labels=ref_l, constants={})
+        progcheck.assemble(a, c['A'], c['compress'], labels=la, constants={})
+        got = progcheck.assemble(a, c['B'], c['compress'], labels=la, constants={})
+        if ref[0] == 'ok' and (got[0] != 'ok' or got[1] != ref[1] or {x: la.get(x) for x in ref_l} != ref_l):
+            print('VIOLATION property=%s replay=%s' % (PROP, path))
+            return env.EXIT_VIOLATION
+        print('replay holds: %s' % path)
+        return env.EXIT_OK
     if c['kind'] == 'hashseed':
         print('replay of hash-seed cases re-runs the job')
         return run('quick')
